@@ -600,6 +600,25 @@ def c07(tier):
     ck.assumptions += ['compilers limited to the installed g++ 12 and clang++ 14', 'results are compared as a checksum of the derivation (rule numbers, term bytes and positions)']
     return ck.finish(floor_events=300)
 
+from . import thread_check as thc
+
+@register('C15')
+def c15(tier):
+    ck = Check('C15', tier)
+    q = tier == 'quick'
+    specs = []
+    for i in range(3 if q else 12):
+        for fl in ('tsan', 'gxx'):
+            specs.append({'seed': common.seed() * 23 + i, 'n_grammars': 6, 'n_inputs': 10 if q else 30, 'threads': [4, 16] if q else [2, 8, 16, 32], 'iters': 400 if q else 3000, 'flavour': fl})
+    merge(ck, common.pmap(thc.worker, specs, jobs=4))
+    ck.cov['rule'] = ('several const parser objects (constexpr and run-time constructed; generated lexers with string/regex/typed terms, a custom lexer, error recovery, contextual functors) are shared by '
+                      '4..32 threads, each making a random mix of parse / verbose parse into its own stream / parse without stream / write_diag_str calls on accepted, rejected and recovering inputs, with '
+                      'random yields injected in functors and stream insertions; monitors: g++ ThreadSanitizer (report blocks counted), comparison of every result with the result computed '
+                      'single-threaded beforehand, a shuffled single-threaded history, and the byte image of every parser object before/after; call start/end stamps give the number of really '
+                      'overlapping call pairs per operation kind; evaluations = concurrent calls; distinct_nontrivial = distinct (parser, thread count) combinations')
+    ck.assumptions += ['held on the schedules the OS produced; all interleavings are out of reach for this technique', 'user functors, contexts and streams are per call; only library state is shared']
+    return ck.finish(floor_events=1000)
+
 def replay(prop, path):
     rep = json.load(open(path))
     print('replay of', path, '- re-running the full check for', prop, 'with seed', rep.get('seed'))
